@@ -15,6 +15,12 @@ func VerifComplete(pgmsg *gpbft.PartialGMessage, chain *gpbft.ECChain) {
 	inferJustificationVoteValue(pgmsg)
 }
 
+// VerifCompleteValueOnly fills in the vote value and leaves the justification as it arrived (no inference):
+// a completion that FullyValidateMessage must not let through unless the justification really is for bottom.
+func VerifCompleteValueOnly(pgmsg *gpbft.PartialGMessage, chain *gpbft.ECChain) {
+	pgmsg.Vote.Value = chain
+}
+
 // VerifToPartial is PartialMessageManager.ToPartialGMessage (which does not use its receiver).
 func VerifToPartial(msg *gpbft.GMessage) (*gpbft.PartialGMessage, error) {
 	return (&PartialMessageManager{}).ToPartialGMessage(msg)
